@@ -305,7 +305,7 @@ def plan(tier, seed):
         total = 1 << 16
         step = 256
         for lo in range(0, total, step):
-            items.append(("uniform", 4, lo, min(total, lo + step), ["properties", "additionalProperties", "items", "anyOf", "nested-twice"]))
+            items.append(("uniform", 4, lo, min(total, lo + step), ["properties", "anyOf", "nested-twice"]))
     return {"items": items, "meta": {"kinds": KINDS, "root_sets": ROOTSETS, "n_complete": 3 if tier == "quick" else 4, "mixed_positions_slice": "1/%d of assignments (seed-rotated)" % mod if mod > 1 else "all", "budget_call_events": BUDGET, "exhaustive": True}}
 
 
